@@ -10,7 +10,7 @@ PRELUDE = "Require Import DTS.Model.Sections.\nDefinition eqp := eqb_list (fun a
 def configs(ctx):
     rng = ctx.rng("c03")
     out = []
-    fixes = {False: [None, "gamma", "dalpha", "alpha"], True: [None, "gamma", "alpha", "alpha+gamma"]}
+    fixes = {False: [None, "gamma", "dalpha", "alpha", "gamma+dalpha", "alpha+gamma"], True: [None, "gamma", "alpha", "alpha+gamma"]}
     reps = 1 if ctx.quick else 10
     for rep in range(reps):
         for double in (False, True):
@@ -23,7 +23,7 @@ def configs(ctx):
                             continue  # fix_alpha + matching sections is refused by the API (NotImplementedError)
                         big = (not ctx.quick) and rng.random() < 0.2
                         nx = int(rng.integers(24, 40)) if not big else int(rng.integers(100, 300))
-                        p = calib.random_params(rng, double, quick=True, nx=nx, nta=nta, noise=0.0, nt=int(rng.integers(1, 4) if not big else rng.integers(4, 20)),
+                        p = calib.random_params(rng, double, quick=True, nx=nx, nta=nta, noise=0.0, nt=int(rng.integers(2 if nta == 2 else 1, 4) if not big else rng.integers(4, 20)),
                                                 nmatch=(1 if front else int(rng.choice([0, 1, 2]))), front_only=front,
                                                 span=float(rng.choice([10.0, 100.0, 400.0, 2000.0])), nbath=int(rng.integers(2, 4)))
                         if fix in ("alpha", "alpha+gamma") and not double:
@@ -104,7 +104,7 @@ def run_params(ctx, plist):
 
 def run(ctx):
     ctx.extra["rule"] = ("noise-free fibres generated exactly from the Raman model (random temperature fields, per-time gains and bath temperatures, direction-dependent splice losses), "
-                         "crossed with {single, double} x {0,1,2 splices} x {sections on both sides, front-only sections + matching sections} x {free, fix_gamma, fix_dalpha/fix_alpha, "
+                         "crossed with {single, double} x {0,1,2 splices} x {sections on both sides, front-only sections + matching sections} x {free, fix_gamma, fix_dalpha/fix_alpha, fix_gamma+fix_dalpha (single), "
                          "fix_alpha+fix_gamma} at the true values; nx 24-40 (thorough: up to 300 points, 20 times, 2 km); pass = |tmpf/tmpb/tmpw - T_true| <= 1e-5 K everywhere, gamma, "
                          "dalpha / alpha recovered")
     ctx.trusted += ["generator vlib/gen_fibre.py (ground truth)", "harness vlib/props/c03.py"]
